@@ -399,6 +399,18 @@ pub fn error(tid: &[u8], code: i64, msg: &str, opts: &MsgOpts) -> Vec<u8> {
     )
 }
 
+/// An error reply whose description is arbitrary bytes (not necessarily UTF-8).
+pub fn error_bytes(tid: &[u8], code: i64, msg: &[u8], opts: &MsgOpts) -> Vec<u8> {
+    envelope(
+        tid,
+        vec![
+            ("y", Value::str("e")),
+            ("e", Value::List(vec![Value::Int(code), Value::Bytes(msg.to_vec())])),
+        ],
+        opts,
+    )
+}
+
 pub fn ping_args(id: &Id) -> Value {
     Value::dict(vec![("id", Value::bytes(id))])
 }
